@@ -22,6 +22,9 @@ def _cmp_term(got: Rec, want_coefs: Dict[str, Rat], want_const: Rat) -> Optional
     if not isinstance(got, Rec) or "variables" not in got.f:
         return "result is not a term"
     g = coefs(got)
+    for n_, v_ in g.items():
+        if isinstance(v_, Rat) and v_.is_zero():
+            return "the result stores a zero coefficient for %s (the variable is still listed in .vars although it does not occur)" % n_
     names = set(g) | set(want_coefs)
     for n in sorted(names):
         a = g.get(n, num(0))
@@ -205,6 +208,12 @@ def rule_term_kernels(ctx: Ctx, which: Optional[List[str]] = None, rule: str = "
             p = _cmp_term(r, {"y": sym("a_y") + sym("a_x")}, sym("a_c"))
             if p:
                 return "target already present: " + p
+            # cancelling coefficients: the merged variable disappears altogether
+            tc = Rec("PolyhedralTerm", {"variables": DictV({x: sym("a_x"), y: -sym("a_x"), z: sym("a_z")}), "constant": sym("a_c")})
+            r = ta.method(tc, "rename_variable", [x, y])
+            p = _cmp_term(r, {"z": sym("a_z")}, sym("a_c"))
+            if p:
+                return "target present with the opposite coefficient: " + p
             r = ta.method(t, "rename_variable", [z, w])  # absent source
             p = _cmp_term(r, {"x": sym("a_x"), "y": sym("a_y")}, sym("a_c"))
             if p:
